@@ -188,7 +188,7 @@ def validate_pl_traces(pipelines):
         shutil.rmtree(d, ignore_errors=True)
         total_states += r["states"]
         if not r["ok"]:
-            m = re.search(r'<<"REJECTED_AT".*', r.get("full", "") + r["out"])
+            m = re.search(r'<<"REJECTED_AT".*', "\n".join(r.get("notes", [])) + r.get("full", "") + r["out"])
             return False, nev, (m.group(0) if m else r["violation"]), total_states
     return True, nev, None, total_states
 
